@@ -323,8 +323,8 @@ Proof.
   destruct (ba_zero2 m) eqn:E2; [reflexivity|]. destruct (ba_hint m <? 0); [reflexivity|].
   destruct (m =? 0) eqn:E3; [reflexivity|].
   assert (Hm : 0 < m <= vlen v).
-  { unfold m, ba_neg, ba_zero, ba_over, ba_capped in *. zb.
-    destruct (n >? vlen v) eqn:E; rewrite Z.gtb_ltb in E; zb; unfold len62 in Hl; lia. }
+  { unfold m, ba_neg, ba_zero, ba_zero2, ba_capped in *. zb.
+    destruct (ba_over n (vlen v)) eqn:E; unfold ba_over in E; zb; unfold len62 in Hl; lia. }
   apply batches_loop64_eq; try assumption.
   - unfold ba_size. rewrite Z.quot_div_nonneg by (unfold len62 in Hl; lia).
     split; [apply Z.div_pos; unfold len62 in Hl; lia|].
